@@ -116,15 +116,79 @@ package isobmff
 //@   requires len(buf) >= 4
 //@   modifies b.flags
 
-// ---- readers of individual boxes: each stays inside its box chain (remaining lengths never go negative, the stream
-// only moves forward) and writes nothing but the reader's bookkeeping; loops over child boxes terminate because every
-// accepted child header charges the parent at least 8 bytes.
+// ---- readers of individual boxes: each stays inside its box chain (remaining lengths never go negative and never grow,
+// the stream only moves forward) and writes nothing but the reader's bookkeeping; loops over child boxes terminate
+// because every accepted child header charges the parent at least 8 bytes.
+
+//@ func logLevelInfo
+//@   props C01 C15
+//@   pure
+
+//@ func logLevelDebug
+//@   props C01 C15
+//@   pure
+
+//@ func logLevelError
+//@   props C01 C15
+//@   pure
+
+//@ func logLevelTrace
+//@   props C01 C15
+//@   pure
+
+//@ func logErrorMsg
+//@   props C01 C15
+//@   pure
+
+//@ func logInfo
+//@   props C01 C15
+//@   pure
+
+//@ func logDebug
+//@   props C01 C15
+//@   pure
+
+//@ func logError
+//@   props C01 C15
+//@   pure
+
+//@ func logInfoBox
+//@   props C01 C15
+//@   pure
+
+//@ func (*box).log
+//@   props C01 C15
+//@   pure
+
+//@ func logTraceFunction
+//@   props C01 C15
+//@   pure
+
+//@ func boxTypeFromBuf
+//@   props C01 C15
+//@   pure
+
+//@ func brandFromBuf
+//@   props C01 C15
+//@   pure
+
+//@ func itemTypeFromBuf
+//@   props C01 C15
+//@   pure
+
+//@ func hdlrFromBuf
+//@   props C01 C15
+//@   pure
+
+//@ func minorBrandsToString
+//@   props C01 C15
+//@   pure
 
 //@ func (*box).adjust
 //@   props C01 C02
 //@   requires wf4(b)
 //@   modifies b.remain, b.outer.remain, b.outer.outer.remain, b.outer.outer.outer.remain, b.outer.outer.outer.outer.remain, b.reader.offset
-//@   ensures remOK(b) && pos(b.reader.br) >= old(pos(b.reader.br))
+//@   ensures remOK(b) && pos(b.reader.br) >= old(pos(b.reader.br)) && b.remain <= old(b.remain) && (b.outer != nil ==> b.outer.remain <= old(b.outer.remain))
 //@   requires n >= 0
 //@   decreases clen4(b)
 
@@ -133,87 +197,102 @@ package isobmff
 //@   props C01 C02 C11
 //@   requires wf4(b)
 //@   modifies stream(b.reader.br), b.remain, b.outer.remain, b.outer.outer.remain, b.outer.outer.outer.remain, b.outer.outer.outer.outer.remain, b.reader.offset, mem(p)
-//@   ensures remOK(b) && pos(b.reader.br) >= old(pos(b.reader.br))
-//@   ensures 0 <= n && n <= len(p) || n == 0
+//@   ensures remOK(b) && pos(b.reader.br) >= old(pos(b.reader.br)) && b.remain <= old(b.remain) && (b.outer != nil ==> b.outer.remain <= old(b.outer.remain))
+//@   ensures 0 <= n && n <= len(p)
 
 
 //@ func parseFileTypeBox
 //@   props C01 C02 C11
 //@   requires wf4(b)
 //@   modifies stream(b.reader.br), b.remain, b.outer.remain, b.outer.outer.remain, b.outer.outer.outer.remain, b.outer.outer.outer.outer.remain, b.reader.offset
-//@   ensures remOK(b) && pos(b.reader.br) >= old(pos(b.reader.br))
+//@   ensures remOK(b) && pos(b.reader.br) >= old(pos(b.reader.br)) && b.remain <= old(b.remain) && (b.outer != nil ==> b.outer.remain <= old(b.outer.remain))
 
 
 //@ func readCNCVBox
 //@   props C01 C02 C11
 //@   requires wf4(b)
 //@   modifies stream(b.reader.br), b.remain, b.outer.remain, b.outer.outer.remain, b.outer.outer.outer.remain, b.outer.outer.outer.outer.remain, b.reader.offset
-//@   ensures remOK(b) && pos(b.reader.br) >= old(pos(b.reader.br))
+//@   ensures remOK(b) && pos(b.reader.br) >= old(pos(b.reader.br)) && b.remain <= old(b.remain) && (b.outer != nil ==> b.outer.remain <= old(b.outer.remain))
 
 
 //@ func readCTBOBox
 //@   props C01 C02 C11
 //@   requires wf4(b)
 //@   modifies stream(b.reader.br), b.remain, b.outer.remain, b.outer.outer.remain, b.outer.outer.outer.remain, b.outer.outer.outer.outer.remain, b.reader.offset
-//@   ensures remOK(b) && pos(b.reader.br) >= old(pos(b.reader.br))
+//@   ensures remOK(b) && pos(b.reader.br) >= old(pos(b.reader.br)) && b.remain <= old(b.remain) && (b.outer != nil ==> b.outer.remain <= old(b.outer.remain))
 
 
 //@ func readCrxTrakBox
 //@   props C01 C02 C11
 //@   requires wf4(b)
 //@   modifies stream(b.reader.br), b.remain, b.outer.remain, b.outer.outer.remain, b.outer.outer.outer.remain, b.outer.outer.outer.outer.remain, b.reader.offset
-//@   ensures remOK(b) && pos(b.reader.br) >= old(pos(b.reader.br))
+//@   ensures remOK(b) && pos(b.reader.br) >= old(pos(b.reader.br)) && b.remain <= old(b.remain) && (b.outer != nil ==> b.outer.remain <= old(b.outer.remain))
 
 
 //@ func readPitm
 //@   props C01 C02 C11
 //@   requires wf4(b)
 //@   modifies stream(b.reader.br), b.remain, b.outer.remain, b.outer.outer.remain, b.outer.outer.outer.remain, b.outer.outer.outer.outer.remain, b.reader.offset, b.flags
-//@   ensures remOK(b) && pos(b.reader.br) >= old(pos(b.reader.br))
+//@   ensures remOK(b) && pos(b.reader.br) >= old(pos(b.reader.br)) && b.remain <= old(b.remain) && (b.outer != nil ==> b.outer.remain <= old(b.outer.remain))
 
 
 //@ func readIdat
 //@   props C01 C02 C11
 //@   requires wf4(b)
 //@   modifies stream(b.reader.br), b.remain, b.outer.remain, b.outer.outer.remain, b.outer.outer.outer.remain, b.outer.outer.outer.outer.remain, b.reader.offset
-//@   ensures remOK(b) && pos(b.reader.br) >= old(pos(b.reader.br))
+//@   ensures remOK(b) && pos(b.reader.br) >= old(pos(b.reader.br)) && b.remain <= old(b.remain) && (b.outer != nil ==> b.outer.remain <= old(b.outer.remain))
 
 
 //@ func readHdlr
 //@   props C01 C02 C11
 //@   requires wf4(b)
 //@   modifies stream(b.reader.br), b.remain, b.outer.remain, b.outer.outer.remain, b.outer.outer.outer.remain, b.outer.outer.outer.outer.remain, b.reader.offset, b.flags
-//@   ensures remOK(b) && pos(b.reader.br) >= old(pos(b.reader.br))
+//@   ensures remOK(b) && pos(b.reader.br) >= old(pos(b.reader.br)) && b.remain <= old(b.remain) && (b.outer != nil ==> b.outer.remain <= old(b.outer.remain))
 
 
 //@ func readIpma
 //@   props C01 C02 C11
 //@   requires wf4(b)
 //@   modifies stream(b.reader.br), b.remain, b.outer.remain, b.outer.outer.remain, b.outer.outer.outer.remain, b.outer.outer.outer.outer.remain, b.reader.offset, b.flags
-//@   ensures remOK(b) && pos(b.reader.br) >= old(pos(b.reader.br))
+//@   ensures remOK(b) && pos(b.reader.br) >= old(pos(b.reader.br)) && b.remain <= old(b.remain) && (b.outer != nil ==> b.outer.remain <= old(b.outer.remain))
 
 
 //@ func readIpco
 //@   props C01 C02 C11
 //@   requires wf4(b)
 //@   modifies stream(b.reader.br), b.remain, b.outer.remain, b.outer.outer.remain, b.outer.outer.outer.remain, b.outer.outer.outer.outer.remain, b.reader.offset
-//@   ensures remOK(b) && pos(b.reader.br) >= old(pos(b.reader.br))
+//@   ensures remOK(b) && pos(b.reader.br) >= old(pos(b.reader.br)) && b.remain <= old(b.remain) && (b.outer != nil ==> b.outer.remain <= old(b.outer.remain))
 
 
 //@ func readIlocHeader
 //@   props C01 C02 C11
 //@   requires wf4(b)
 //@   modifies stream(b.reader.br), b.remain, b.outer.remain, b.outer.outer.remain, b.outer.outer.outer.remain, b.outer.outer.outer.outer.remain, b.reader.offset, b.flags
-//@   ensures remOK(b) && pos(b.reader.br) >= old(pos(b.reader.br))
+//@   ensures remOK(b) && pos(b.reader.br) >= old(pos(b.reader.br)) && b.remain <= old(b.remain) && (b.outer != nil ==> b.outer.remain <= old(b.outer.remain))
+
+
+//@ func readExifHeader
+//@   props C01 C02 C11
+//@   requires wf4(b)
+//@   modifies stream(b.reader.br), b.remain, b.outer.remain, b.outer.outer.remain, b.outer.outer.outer.remain, b.outer.outer.outer.outer.remain, b.reader.offset
+//@   ensures remOK(b) && pos(b.reader.br) >= old(pos(b.reader.br)) && b.remain <= old(b.remain) && (b.outer != nil ==> b.outer.remain <= old(b.outer.remain))
+
+
+//@ func parsePreviewBox
+//@   props C01 C02 C11
+//@   requires wf4(b)
+//@   modifies stream(b.reader.br), b.remain, b.outer.remain, b.outer.outer.remain, b.outer.outer.outer.remain, b.outer.outer.outer.outer.remain, b.reader.offset
+//@   ensures remOK(b) && pos(b.reader.br) >= old(pos(b.reader.br)) && b.remain <= old(b.remain) && (b.outer != nil ==> b.outer.remain <= old(b.outer.remain))
 
 
 //@ func (*Reader).readIloc
 //@   props C01 C02 C11
 //@   requires wf4(b)
 //@   modifies stream(b.reader.br), b.remain, b.outer.remain, b.outer.outer.remain, b.outer.outer.outer.remain, b.outer.outer.outer.outer.remain, b.reader.offset, b.flags, r.heic
-//@   ensures remOK(b) && pos(b.reader.br) >= old(pos(b.reader.br))
+//@   ensures remOK(b) && pos(b.reader.br) >= old(pos(b.reader.br)) && b.remain <= old(b.remain) && (b.outer != nil ==> b.outer.remain <= old(b.outer.remain))
 //@   loop 0 invariant 0 <= i
 //@   loop 0 decreases len(buf) - i
+//@   loop 1 invariant 0 <= i && 0 <= j
 //@   loop 1 decreases int(ent.count) - j
 
 
@@ -221,7 +300,7 @@ package isobmff
 //@   props C01 C02 C11
 //@   requires wf4(b)
 //@   modifies stream(b.reader.br), b.remain, b.outer.remain, b.outer.outer.remain, b.outer.outer.outer.remain, b.outer.outer.outer.outer.remain, b.reader.offset, r.heic
-//@   ensures remOK(b) && pos(b.reader.br) >= old(pos(b.reader.br))
+//@   ensures remOK(b) && pos(b.reader.br) >= old(pos(b.reader.br)) && b.remain <= old(b.remain) && (b.outer != nil ==> b.outer.remain <= old(b.outer.remain))
 //@   loop 0 invariant 0 <= i
 //@   loop 0 decreases len(buf) - i
 
@@ -230,62 +309,51 @@ package isobmff
 //@   props C01 C02 C11
 //@   requires wf4(b)
 //@   modifies stream(b.reader.br), b.remain, b.outer.remain, b.outer.outer.remain, b.outer.outer.outer.remain, b.outer.outer.outer.outer.remain, b.reader.offset, b.flags, r.heic
-//@   ensures remOK(b) && pos(b.reader.br) >= old(pos(b.reader.br))
-
-
-//@ func readExifHeader
-//@   props C01 C02 C11
-//@   requires wf4(b)
-//@   modifies stream(b.reader.br), b.remain, b.outer.remain, b.outer.outer.remain, b.outer.outer.outer.remain, b.outer.outer.outer.outer.remain, b.reader.offset
-//@   ensures remOK(b) && pos(b.reader.br) >= old(pos(b.reader.br))
-
-
-//@ func parsePreviewBox
-//@   props C01 C02 C11
-//@   requires wf4(b)
-//@   modifies stream(b.reader.br), b.remain, b.outer.remain, b.outer.outer.remain, b.outer.outer.outer.remain, b.outer.outer.outer.outer.remain, b.reader.offset
-//@   ensures remOK(b) && pos(b.reader.br) >= old(pos(b.reader.br))
+//@   ensures remOK(b) && pos(b.reader.br) >= old(pos(b.reader.br)) && b.remain <= old(b.remain) && (b.outer != nil ==> b.outer.remain <= old(b.outer.remain))
 
 
 //@ func readIprp
 //@   props C01 C02 C11
 //@   requires wf2(b)
 //@   modifies stream(b.reader.br), b.remain, b.outer.remain, b.outer.outer.remain, b.outer.outer.outer.remain, b.outer.outer.outer.outer.remain, b.reader.offset, box.flags
-//@   ensures remOK(b) && pos(b.reader.br) >= old(pos(b.reader.br))
-//@   loop 0 invariant remOK(b) && pos(b.reader.br) >= old(pos(b.reader.br))
-//@   loop 0 decreases b.remain
+//@   ensures remOK(b) && pos(b.reader.br) >= old(pos(b.reader.br)) && b.remain <= old(b.remain) && (b.outer != nil ==> b.outer.remain <= old(b.outer.remain))
+//@   loop 0 invariant remOK(b) && pos(b.reader.br) >= old(pos(b.reader.br)) && b.remain <= old(b.remain) && (b.outer != nil ==> b.outer.remain <= old(b.outer.remain))
+//@   loop 0 invariant ok && err == nil ==> inner.outer == b && inner.reader == b.reader && inner.remain >= 0
+//@   loop 0 decreases ite(ok && err == nil, 1, 0), b.remain
 
 
 //@ func readIref
 //@   props C01 C02 C11
 //@   requires wf2(b)
 //@   modifies stream(b.reader.br), b.remain, b.outer.remain, b.outer.outer.remain, b.outer.outer.outer.remain, b.outer.outer.outer.outer.remain, b.reader.offset, b.flags
-//@   ensures remOK(b) && pos(b.reader.br) >= old(pos(b.reader.br))
-//@   loop 0 invariant remOK(b) && pos(b.reader.br) >= old(pos(b.reader.br))
-//@   loop 0 decreases b.remain
+//@   ensures remOK(b) && pos(b.reader.br) >= old(pos(b.reader.br)) && b.remain <= old(b.remain) && (b.outer != nil ==> b.outer.remain <= old(b.outer.remain))
+//@   loop 0 invariant remOK(b) && pos(b.reader.br) >= old(pos(b.reader.br)) && b.remain <= old(b.remain) && (b.outer != nil ==> b.outer.remain <= old(b.outer.remain))
+//@   loop 0 invariant ok && err == nil ==> inner.outer == b && inner.reader == b.reader && inner.remain >= 0
+//@   loop 0 decreases ite(ok && err == nil, 1, 0), b.remain
 
 
 //@ func readCMTBox
 //@   props C01 C02 C11
 //@   requires wf3(b)
 //@   modifies stream(b.reader.br), b.remain, b.outer.remain, b.outer.outer.remain, b.outer.outer.outer.remain, b.outer.outer.outer.outer.remain, b.reader.offset
-//@   ensures remOK(b) && pos(b.reader.br) >= old(pos(b.reader.br))
+//@   ensures remOK(b) && pos(b.reader.br) >= old(pos(b.reader.br)) && b.remain <= old(b.remain) && (b.outer != nil ==> b.outer.remain <= old(b.outer.remain))
 
 
 //@ func readCrxMoovBox
 //@   props C01 C02 C11
 //@   requires wf2(b)
 //@   modifies stream(b.reader.br), b.remain, b.outer.remain, b.outer.outer.remain, b.outer.outer.outer.remain, b.outer.outer.outer.outer.remain, b.reader.offset
-//@   ensures remOK(b) && pos(b.reader.br) >= old(pos(b.reader.br))
-//@   loop 0 invariant remOK(b) && pos(b.reader.br) >= old(pos(b.reader.br))
-//@   loop 0 decreases b.remain
+//@   ensures remOK(b) && pos(b.reader.br) >= old(pos(b.reader.br)) && b.remain <= old(b.remain) && (b.outer != nil ==> b.outer.remain <= old(b.outer.remain))
+//@   loop 0 invariant remOK(b) && pos(b.reader.br) >= old(pos(b.reader.br)) && b.remain <= old(b.remain) && (b.outer != nil ==> b.outer.remain <= old(b.outer.remain))
+//@   loop 0 invariant ok && err == nil ==> inner.outer == b && inner.reader == b.reader && inner.remain >= 0
+//@   loop 0 decreases ite(ok && err == nil, 1, 0), b.remain
 
 
 //@ func (*Reader).createPRVWBox
 //@   props C01 C02 C11
 //@   requires wf2(b)
 //@   modifies stream(b.reader.br), b.remain, b.outer.remain, b.outer.outer.remain, b.outer.outer.outer.remain, b.outer.outer.outer.outer.remain, b.reader.offset
-//@   ensures remOK(b) && pos(b.reader.br) >= old(pos(b.reader.br))
+//@   ensures remOK(b) && pos(b.reader.br) >= old(pos(b.reader.br)) && b.remain <= old(b.remain) && (b.outer != nil ==> b.outer.remain <= old(b.outer.remain))
 //@   ensures err == nil ==> inner.outer == b && inner.reader == b.reader && inner.remain >= 0
 
 
@@ -293,39 +361,41 @@ package isobmff
 //@   props C01 C02 C11
 //@   requires wf2(b)
 //@   modifies stream(b.reader.br), b.remain, b.outer.remain, b.outer.outer.remain, b.outer.outer.outer.remain, b.outer.outer.outer.outer.remain, b.reader.offset, r.prvw
-//@   ensures remOK(b) && pos(b.reader.br) >= old(pos(b.reader.br))
+//@   ensures remOK(b) && pos(b.reader.br) >= old(pos(b.reader.br)) && b.remain <= old(b.remain) && (b.outer != nil ==> b.outer.remain <= old(b.outer.remain))
 
 
 //@ func (*Reader).readUUIDBox
 //@   props C01 C02 C11
 //@   requires wf2(b)
 //@   modifies stream(b.reader.br), b.remain, b.outer.remain, b.outer.outer.remain, b.outer.outer.outer.remain, b.outer.outer.outer.outer.remain, b.reader.offset, r.prvw
-//@   ensures remOK(b) && pos(b.reader.br) >= old(pos(b.reader.br))
+//@   ensures remOK(b) && pos(b.reader.br) >= old(pos(b.reader.br)) && b.remain <= old(b.remain) && (b.outer != nil ==> b.outer.remain <= old(b.outer.remain))
 
 
 //@ func (*Reader).readMeta
 //@   props C01 C02 C11
 //@   requires wf1(b)
 //@   modifies stream(b.reader.br), b.remain, b.outer.remain, b.outer.outer.remain, b.outer.outer.outer.remain, b.outer.outer.outer.outer.remain, b.reader.offset, box.flags, r.heic, r.prvw
-//@   ensures remOK(b) && pos(b.reader.br) >= old(pos(b.reader.br))
-//@   loop 0 invariant remOK(b) && pos(b.reader.br) >= old(pos(b.reader.br))
-//@   loop 0 decreases b.remain
+//@   ensures remOK(b) && pos(b.reader.br) >= old(pos(b.reader.br)) && b.remain <= old(b.remain) && (b.outer != nil ==> b.outer.remain <= old(b.outer.remain))
+//@   loop 0 invariant remOK(b) && pos(b.reader.br) >= old(pos(b.reader.br)) && b.remain <= old(b.remain) && (b.outer != nil ==> b.outer.remain <= old(b.outer.remain))
+//@   loop 0 invariant ok && err == nil ==> inner.outer == b && inner.reader == b.reader && inner.remain >= 0
+//@   loop 0 decreases ite(ok && err == nil, 1, 0), b.remain
 
 
 //@ func (*Reader).readMoovBox
 //@   props C01 C02 C11
 //@   requires wf1(b)
 //@   modifies stream(b.reader.br), b.remain, b.outer.remain, b.outer.outer.remain, b.outer.outer.outer.remain, b.outer.outer.outer.outer.remain, b.reader.offset, r.prvw
-//@   ensures remOK(b) && pos(b.reader.br) >= old(pos(b.reader.br))
-//@   loop 0 invariant remOK(b) && pos(b.reader.br) >= old(pos(b.reader.br))
-//@   loop 0 decreases b.remain
+//@   ensures remOK(b) && pos(b.reader.br) >= old(pos(b.reader.br)) && b.remain <= old(b.remain) && (b.outer != nil ==> b.outer.remain <= old(b.outer.remain))
+//@   loop 0 invariant remOK(b) && pos(b.reader.br) >= old(pos(b.reader.br)) && b.remain <= old(b.remain) && (b.outer != nil ==> b.outer.remain <= old(b.outer.remain))
+//@   loop 0 invariant ok && err == nil ==> inner.outer == b && inner.reader == b.reader && inner.remain >= 0
+//@   loop 0 decreases ite(ok && err == nil, 1, 0), b.remain
 
 
 //@ func (*Reader).newExifBox
 //@   props C01 C02 C11
 //@   requires wf3(b)
 //@   modifies stream(b.reader.br), b.remain, b.outer.remain, b.outer.outer.remain, b.outer.outer.outer.remain, b.outer.outer.outer.outer.remain, b.reader.offset
-//@   ensures remOK(b) && pos(b.reader.br) >= old(pos(b.reader.br))
+//@   ensures remOK(b) && pos(b.reader.br) >= old(pos(b.reader.br)) && b.remain <= old(b.remain) && (b.outer != nil ==> b.outer.remain <= old(b.outer.remain))
 //@   ensures err == nil ==> inner.outer == b && inner.reader == b.reader && inner.remain >= 0
 
 
@@ -333,7 +403,7 @@ package isobmff
 //@   props C01 C02 C11
 //@   requires wf2(b)
 //@   modifies stream(b.reader.br), b.remain, b.outer.remain, b.outer.outer.remain, b.outer.outer.outer.remain, b.outer.outer.outer.outer.remain, b.reader.offset
-//@   ensures remOK(b) && pos(b.reader.br) >= old(pos(b.reader.br))
+//@   ensures remOK(b) && pos(b.reader.br) >= old(pos(b.reader.br)) && b.remain <= old(b.remain) && (b.outer != nil ==> b.outer.remain <= old(b.outer.remain))
 
 
 // Callbacks receive a box as their reader. ASSUMED: a callback acts on it only through the box's own Peek/Discard/Read
@@ -342,19 +412,19 @@ package isobmff
 //@   names r h -> err
 //@   requires [C11] wf4(as(r, "*isobmff.box"))
 //@   modifies stream(as(r, "*isobmff.box").reader.br), as(r, "*isobmff.box").remain, as(r, "*isobmff.box").outer.remain, as(r, "*isobmff.box").outer.outer.remain, as(r, "*isobmff.box").outer.outer.outer.remain, as(r, "*isobmff.box").outer.outer.outer.outer.remain, as(r, "*isobmff.box").reader.offset
-//@   ensures remOK(as(r, "*isobmff.box")) && pos(as(r, "*isobmff.box").reader.br) >= old(pos(as(r, "*isobmff.box").reader.br))
+//@   ensures remOK(as(r, "*isobmff.box")) && pos(as(r, "*isobmff.box").reader.br) >= old(pos(as(r, "*isobmff.box").reader.br)) && as(r, "*isobmff.box").remain <= old(as(r, "*isobmff.box").remain) && (as(r, "*isobmff.box").outer != nil ==> as(r, "*isobmff.box").outer.remain <= old(as(r, "*isobmff.box").outer.remain))
 
 //@ dep callback isobmff.Reader.XMPReader
 //@   names r -> err
 //@   requires [C11] wf4(as(r, "*isobmff.box"))
 //@   modifies stream(as(r, "*isobmff.box").reader.br), as(r, "*isobmff.box").remain, as(r, "*isobmff.box").outer.remain, as(r, "*isobmff.box").outer.outer.remain, as(r, "*isobmff.box").outer.outer.outer.remain, as(r, "*isobmff.box").outer.outer.outer.outer.remain, as(r, "*isobmff.box").reader.offset
-//@   ensures remOK(as(r, "*isobmff.box")) && pos(as(r, "*isobmff.box").reader.br) >= old(pos(as(r, "*isobmff.box").reader.br))
+//@   ensures remOK(as(r, "*isobmff.box")) && pos(as(r, "*isobmff.box").reader.br) >= old(pos(as(r, "*isobmff.box").reader.br)) && as(r, "*isobmff.box").remain <= old(as(r, "*isobmff.box").remain) && (as(r, "*isobmff.box").outer != nil ==> as(r, "*isobmff.box").outer.remain <= old(as(r, "*isobmff.box").outer.remain))
 
 //@ dep callback isobmff.Reader.PreviewImageReader
 //@   names r h -> err
 //@   requires [C11] wf4(as(r, "*isobmff.box"))
 //@   modifies stream(as(r, "*isobmff.box").reader.br), as(r, "*isobmff.box").remain, as(r, "*isobmff.box").outer.remain, as(r, "*isobmff.box").outer.outer.remain, as(r, "*isobmff.box").outer.outer.outer.remain, as(r, "*isobmff.box").outer.outer.outer.outer.remain, as(r, "*isobmff.box").reader.offset
-//@   ensures remOK(as(r, "*isobmff.box")) && pos(as(r, "*isobmff.box").reader.br) >= old(pos(as(r, "*isobmff.box").reader.br))
+//@   ensures remOK(as(r, "*isobmff.box")) && pos(as(r, "*isobmff.box").reader.br) >= old(pos(as(r, "*isobmff.box").reader.br)) && as(r, "*isobmff.box").remain <= old(as(r, "*isobmff.box").remain) && (as(r, "*isobmff.box").outer != nil ==> as(r, "*isobmff.box").outer.remain <= old(as(r, "*isobmff.box").outer.remain))
 
 //@ func (*Reader).ReadFTYP
 //@   props C01 C02 C11
